@@ -4,7 +4,7 @@
     regenerated from the Go source on every run. *)
 From Teleport Require Import Base.Bytes Base.Outcome Base.Fmt Base.AbiSchema Gen.KeysGen Gen.AbiSchemaGen
   Model.Keys Model.Abi Model.EncodingCheck
-  Proofs.Keys Proofs.KeysParse Proofs.Abi Proofs.AbiRoundtrip Proofs.AbiInst Proofs.EncodingMonitor.
+  Proofs.Keys Proofs.KeysParse Proofs.KeysExact Proofs.Abi Proofs.AbiRoundtrip Proofs.AbiInst Proofs.EncodingMonitor.
 Local Open Scope N_scope.
 
 (** * Store keys *)
@@ -157,6 +157,30 @@ Proof.
   split; [apply iter_consensus_states_on_client_key | apply iter_clients_on_client_key]; exact H.
 Qed.
 Print Assumptions C19_client_store_iterators.
+
+(** exactness: a key is read as the consensus state of h IF AND ONLY IF it is the key written for h —
+    whatever else is stored under the client's prefix *)
+Theorem C19_consensus_iterator_exact : forall name path n h,
+  valid_chain_name name = true ->
+  (iter_consensus_states (client_store_prefix name ++ path) = Got (n, h)
+   <-> (n = name /\ path = consensus_state_key h /\ valid_height h = true)).
+Proof. exact consensus_iterator_exact. Qed.
+Print Assumptions C19_consensus_iterator_exact.
+
+Theorem C19_clients_iterator_exact : forall name path n,
+  valid_chain_name name = true ->
+  (iter_clients (client_store_prefix name ++ path) = Got n <-> (n = name /\ path = client_state_key)).
+Proof. exact clients_iterator_exact. Qed.
+Print Assumptions C19_clients_iterator_exact.
+
+(** the Split-based parser of before the D7 repair agrees with the fixed-offset one exactly when the 16
+    height bytes contain no separator byte *)
+Theorem C19_old_parser_agrees_without_sep : forall name h,
+  valid_chain_name name = true -> valid_height h = true ->
+  no_sep (be_bytes 8 (rev_number h) ++ be_bytes 8 (rev_height h)) = true ->
+  iter_consensus_states_old (full_consensus_state_key name h) = Ok (iter_consensus_states (full_consensus_state_key name h)).
+Proof. exact old_parser_agrees_without_sep. Qed.
+Print Assumptions C19_old_parser_agrees_without_sep.
 
 Theorem C19_processed_time_key_roundtrip : forall h,
   iter_processed_time (tm_processed_time_key h) = Got (tm_processed_time_key h) /\
